@@ -295,7 +295,7 @@ reg("C19", harness="c19_headers", level="model_checking", deadline=(300, 1500), 
                "buffer-size modes plus every proper subset of fields discarded (NULL) while the others are collected x 2 growth policies (overflow -> larger buffer keeping delivered bytes -> resume) is explored; recovered fields, "
                "stop position and statuses are checked; zlib reader under every composition of the header; all byte strings up to length 3 as headers; avail_in of 2^31-1 .. 2^32-1 (a whole mapped file "
                "handed over in one call, zero-page-backed mapping) for both header readers and both inflate entry points; at every terminal of the reader graphs a copy of the state "
-               "continues (second header parse; empty / 1-byte / rest inflate calls) and must behave like a state that parsed the header in one call; recycled states: every prefix of 54 headers abandoned (header reader with/without buffers, isal_inflate) -> isal_inflate_reset -> a second header with all / exactly one optional field in one or two calls.",
+               "continues (second header parse; empty / 1-byte / rest inflate calls) and must behave like a state that parsed the header in one call; recycled states: every prefix of 54 headers abandoned (header reader with/without buffers, isal_inflate) -> isal_inflate_reset -> a second header with all / exactly one optional field in one or two calls; likewise zlib and gzip headers abandoned at every byte followed, after the reset, by a zlib (with / without FDICT) or gzip header cut at every byte.",
     level_note="field values outside the product and chunk sizes outside {0,1,2,rest} are not covered; trusted: ref/ref_hdr.h",
     runs=[dict(flavour="sim", part="writer"), dict(flavour="sim", part="reader")],
     rule="writer case = (field combination, avail_out); reader state = image of inflate_state head + isal_gzip_header + caller buffers + cursor, "
